@@ -39,7 +39,7 @@ pub fn coeff(r: &mut Rng, q: u32) -> u128 {
     let lo = pow10(q - 1);
     let hi = pow10(q) - 1;
     let span = hi - lo + 1;
-    match r.below(16) {
+    match r.below(20) {
         0 => lo,
         1 => hi,
         2 => (lo + 1).min(hi),
@@ -67,13 +67,33 @@ pub fn coeff(r: &mut Rng, q: u32) -> u128 {
             if w >= lo { w } else { v }
         }
         8 => (lo + r.below(10) as u128).min(hi),
+        10 => { // carry boundaries of the code's own multi-word splits: (m·2^(64-k))·10^k + t has a zero low word in its
+                // high part for k = 17, 18, 19 (string conversion, formatting, 19-digit packing); t at its extremes
+            let k = 17 + r.below(3) as u32;
+            let m = 1 + r.below(1 << 12) as u128;
+            let hi_part = (m << (64 - k)) * pow10(k);
+            let t = match r.below(4) { 0 => 0, 1 => pow10(k) - 1, 2 => 1, _ => r.u128() % pow10(k) };
+            let v = hi_part + t;
+            if v >= lo && v <= hi { v } else { let v2 = (v % span) + lo; v2 }
+        }
+        12 | 13 => { // 2-adic shapes m·2^j: after scaling by 10^k = 2^k·5^k the low words of the multi-word product vanish
+            let j = r.below(113) as u32;
+            let m = 1 + 2 * r.below(1 << 10) as u128;
+            let v = m << j;
+            if v >= lo && v <= hi { v } else if (1u128 << j) >= lo && (1u128 << j) <= hi { 1u128 << j } else { lo + r.u128() % span }
+        }
+        11 => { // low word all ones (carry out of the low word on increment)
+            let v = lo + r.u128() % span;
+            let w = v | 0xFFFF_FFFF_FFFF_FFFFu128;
+            if w <= hi { w } else { v }
+        }
         9 => hi - (r.below(10) as u128).min(hi - lo),
         _ => lo + r.u128() % span,
     }
 }
 
 /// A coefficient with 1..=n digits.
-pub fn coeff_upto(r: &mut Rng, n: u32) -> u128 { let q = 1 + r.below(n as u64) as u32; coeff(r, q) }
+pub fn coeff_upto(r: &mut Rng, n: u32) -> u128 { let q = if n == 34 { qdigits(r) } else { 1 + r.below(n as u64) as u32 }; coeff(r, q) }
 
 pub fn exponent(r: &mut Rng) -> i32 {
     match r.below(10) {
@@ -85,9 +105,15 @@ pub fn exponent(r: &mut Rng) -> i32 {
     }
 }
 
+/// Digit counts: half uniform, half from the boundaries of the code's case analyses (1-2 digits, the 64-bit word
+/// boundary at 19/20 digits, the split points 16-18, and 33/34).
+pub fn qdigits(r: &mut Rng) -> u32 {
+    if r.chance(1, 2) { 1 + r.below(34) as u32 } else { *r.pick(&[1u32, 2, 16, 17, 18, 19, 20, 21, 33, 34]) }
+}
+
 /// A canonical finite non-zero value.
 pub fn finite(r: &mut Rng) -> u128 {
-    let q = 1 + r.below(34) as u32;
+    let q = qdigits(r);
     enc(r.chance(1, 2), coeff(r, q), exponent(r))
 }
 
@@ -153,7 +179,7 @@ fn decode_fin(b: u128) -> (bool, u128, i32) {
 pub fn partner(r: &mut Rng, x: u128) -> u128 {
     let (_, c1, e1) = decode_fin(x);
     let q1 = ndigits(c1) as i32;
-    let q2 = 1 + r.below(34) as u32;
+    let q2 = qdigits(r);
     let c2 = coeff(r, q2);
     let delta: i32 = match r.below(8) {
         0 => 0,
@@ -183,6 +209,21 @@ pub fn cmp_pair(r: &mut Rng) -> (u128, u128) {
             if r.chance(1, 2) { (a, b) } else { (b, a) }
         }
         3 | 4 => { let x = finite(r); (x, partner(r, x)) }
+        7 => { // word boundaries of the scaled comparand: y.c·10^g = m·5^g·2^(64k) has k zero low words (k = 1, 2),
+               // optionally minus one (all-ones low words); x is a full-width coefficient of comparable size
+            let g = 1 + r.below(33) as u32;
+            let k = 1 + r.below(2) as u32;
+            let j = (64 * k).saturating_sub(g);
+            let mut m = 1 + r.below(1 << 14) as u128;
+            while (m << j) >= P34 && m > 1 { m >>= 1; }
+            let cy = (m << j).min(P34 - 1).max(1);
+            let cy = if r.chance(1, 4) { cy.saturating_sub(1).max(1) } else { cy };
+            let e = exponent(r).clamp(EMIN, EMAX - 34);
+            let cx = match r.below(3) { 0 => coeff(r, 34), 1 => P34 - 1, _ => coeff_upto(r, 34) };
+            let (s1, s2) = match r.below(4) { 0 => (false, false), 1 => (true, true), 2 => (false, true), _ => (true, false) };
+            let (a, b) = (enc(s1, cx, e), enc(s2, cy, e + g as i32));
+            if r.chance(1, 2) { (a, b) } else { (b, a) }
+        }
         5 => { let x = finite(r); (x, x ^ ((r.chance(1, 2) as u128) << 127)) }
         6 => (zero(r), zero(r)),
         _ => (operand(r), operand(r)),
